@@ -48,7 +48,7 @@ func (h *handler) RunGenerate(c *projgen.Conc, pre *projgen.PState, path []*proj
 // WantBuild: "the resolver files held only resolver methods and the change only added fields":
 // compile before and after (budgeted); the TLA+ postcondition CompileKept judges the pair.
 func (h *handler) WantBuild(pre *projgen.PState) bool {
-	if pre.Dirty == "other" {
+	if pre.Dirty == "other" || (pre.Root != "" && pre.Root != "gen") {
 		return false
 	}
 	for _, l := range pre.Helpers {
@@ -139,7 +139,7 @@ func tail(s string, n int) string {
 	return s
 }
 
-var projectActions = []string{"EditBody", "AddHelper", "AddImport", "AddField", "RemoveField", "RenameField", "MoveField", "RemoveType", "Generate"}
+var projectActions = []string{"EditBody", "AddHelper", "AddImport", "EditRoot", "AddField", "RemoveField", "RenameField", "MoveField", "RemoveType", "Generate"}
 
 func main() {
 	if rp := os.Getenv("VERIF_REPLAY"); rp != "" {
